@@ -791,6 +791,7 @@ func generate(c *Ctx) []Replay {
 		add("jsonreq", []byte(mutateText(r, s, []byte("{}[]\":,\\\x80"))))
 	}
 	genAdmin(r, add, c.N(40))
+	genRpc(c, r, add)
 	return jobs
 }
 
